@@ -52,6 +52,9 @@ def one_case(rng, tier):
         sched = []
         for nm in names:
             sched.append([rng.choice([0, 0, 0.3, 1.0, 1.0, 2.5]), nm])
+        if rng.random() < 0.25:
+            # a matching path that is a symbolic link whose target does not exist (yet): it matches, so it is emitted
+            sched.append([rng.choice([0, 0.3, 1.0]), 'l%02d.dat' % len(names), 'link'])
         if rng.random() < 0.3:
             # a path that has been emitted disappears, stays away for at least one poll, and is created again: it is the
             # same path, so it is not emitted a second time
@@ -100,7 +103,8 @@ def one_case(rng, tier):
         t0 = round(rng.uniform(0.3, max(0.4, total)), 2)
         restarts.append([t0, round(t0 + rng.choice([0.0, 0.5, 1.5, 3.0]), 2)])
     return {'kind': 'textfile', 'delimiter': d, 'chunks': chunks, 'gaps': gaps, 'pre': pre, 'from_end': from_end,
-            'poll': 1.0, 'as_path': d != '\r\n' and rng.random() < 0.5, 'restarts': restarts}
+            'poll': 1.0, 'as_path': d != '\r\n' and rng.random() < 0.5, 'restarts': restarts,
+            'consumer_svc': rng.choice([0, 0, 0, 1.5, 2.5])}
 
 
 def check_case(case, counters, sets):
@@ -131,7 +135,18 @@ def check_case(case, counters, sets):
                         fh = open(path, newline='', encoding='utf8')
                         src = Stream.from_textfile(fh, poll_interval=case['poll'], delimiter=d,
                                                    from_end=case['from_end'], asynchronous=True)
-                    src.sink(lambda x: got.append((loop.time(), x)))
+                    svc = case.get('consumer_svc') or 0
+                    if svc:
+                        # a consumer that takes (virtual) time: the source is held back at a record while more data arrives
+                        import asyncio as _aio
+
+                        async def slow(x):
+                            await _aio.sleep(svc if len(got) % 2 == 0 else 0)
+                            got.append((loop.time(), x))
+                        src.sink(slow)
+                        counters['textfile_runs_with_slow_consumer'] = counters.get('textfile_runs_with_slow_consumer', 0) + 1
+                    else:
+                        src.sink(lambda x: got.append((loop.time(), x)))
                     wf = open(path, 'ab')
                     t = 0.25 + sum(case['gaps'])
                     todo = list(zip(case['chunks'], case['gaps']))
@@ -161,9 +176,10 @@ def check_case(case, counters, sets):
                         loop.call_later(t_stop, stop_then_start)
                         t = max(t, t_start)
                         counters['textfile_restart_runs'] = counters.get('textfile_restart_runs', 0) + 1
-                    loop.drive(until_vt=t + 4 * case['poll'] + 1, max_iters=200000)
+                    slack = 16 * svc          # up to 14 records, every other one held for svc
+                    loop.drive(until_vt=t + 4 * case['poll'] + 1 + slack, max_iters=200000)
                     src.stop()
-                    loop.drive(until_vt=t + 7 * case['poll'] + 1, max_iters=50000)
+                    loop.drive(until_vt=t + 7 * case['poll'] + 1 + 2 * slack, max_iters=50000)
                     wf.close()
                     fh.close()
                     new = bytes(b for c in case['chunks'] for b in c).decode('utf8')
@@ -229,7 +245,10 @@ def check_case(case, counters, sets):
                     def mk():
                         ent = todo.pop(0)
                         nm = ent[1]
-                        if len(ent) > 2:
+                        if len(ent) > 2 and ent[2] == 'link':
+                            os.symlink(os.path.join(tmp, 'target-that-does-not-exist'), os.path.join(tmp, nm))
+                            counters['filenames_dangling_links'] = counters.get('filenames_dangling_links', 0) + 1
+                        elif len(ent) > 2:
                             os.remove(os.path.join(tmp, nm))
                             counters['filenames_paths_removed_and_recreated'] = counters.get('filenames_paths_removed_and_recreated', 0) + 1
                         else:
